@@ -12,7 +12,28 @@ PROP = dict(
                        "no_hang (the child answered within the watchdog)",
                        "no_crash (the child process survived: no fatal error, no out-of-memory)"]),
     ],
-    partial="",
-    assumptions=[],
-    level_text="",
+    partial="The theorems cover ZENO'S OWN byte-level code only (hasFileExtension, isLikelyJSON, GetShortID, the Link header parser, "
+            "extractFromScriptContent, the srcset splitting, the nil-safety of postprocessItem / extractAssets / extractOutlinks under the "
+            "archiver's invariant). Third-party decoders (x/net/html via goquery, encoding/json, encoding/xml, grafov/m3u8, pdfcpu, mimetype, "
+            "xurls, fasturl, ada) are NOT modelled: for them the check is structure-aware fuzzing in isolated child processes (the `fuzz` leg), "
+            "which is a search and not a proof - a silent run only says that no crasher was among this run's generated inputs. "
+            "That search found six third-party defects on the unchanged tree (known-findings.txt: m3u8 nil dereference, pdfcpu makeslice "
+            "panic, pdfcpu stack exhaustion, pdfcpu 93 GiB allocation, pdfcpu exponential parse, x/net/html quadratic parse); the first two "
+            "are repaired by fixes/C10-decoder-panic-recover.diff, the others are not repairable by a small patch inside Zeno.",
+    assumptions=[
+        "the byte-level models of strings.IndexByte/LastIndexByte/HasPrefix/Contains/Split/SplitN/SplitAfterN/Trim/TrimSpace and of the rune "
+        "stepping of `range` over a string say what the Go library does (total functions; compared with the real library by the scan driver on every run)",
+        "archiver invariant: an item whose state is ItemArchived has a response, a MIME type and a parsed URL (archiver.go sets the response after "
+        "client.Do succeeded and ProcessBody sets the MIME before returning nil); without it postprocessItem does dereference nil "
+        "(lemmas dispatch_unguarded_refuted, dispatch_unguarded_mime_refuted; replayed on the real function by the dispatch driver)",
+        "extractors return no nil entries in their outlink slices and a freshly made child item has no parent (so AddChild cannot fail)",
+        "int counters do not overflow (inputs far below 2^63 bytes)",
+    ],
+    level_text="Theorems for ALL byte strings / all item views, status codes, predicate valuations, configurations and extractor outcomes, about "
+               "Zeno's own scanners and dispatch only: every slice, index and nil dereference is in bounds, every loop ends within a stated "
+               "linear number of iterations. The models are tied to the code by differential testing on every run (outputs and panic/no-panic). "
+               "For everything behind a third-party decoder the level is fuzzing in child processes with recover(), watchdog and memory cap: "
+               "a search, not a proof.",
+    technique="Coq 8.16 proofs over Gallina transcriptions with explicit panicking operations + differential testing (scan, dispatch) + "
+              "structure-aware fuzzing in isolated subprocesses (fuzz)",
 )
